@@ -278,6 +278,15 @@ def l_prism_split():
     return v, f, True
 
 
+def l_prism_tris():
+    """The L-prism given as triangles only, walls first: merge_faces merges the coplanar
+    wall triangles, then fails on the caps (their union is not convex)."""
+    v, f = extrude(L_POLY, [[0, 1, 2, 3], [0, 3, 4, 5]])
+    walls = [x for x in f if not (all(i < 6 for i in x) or all(i >= 6 for i in x))]
+    caps = [x for x in f if x not in walls]
+    return v, triangulate_faces(walls + caps), True
+
+
 def l_prism_nonconvex():
     v, f = extrude(L_POLY, [[0, 1, 2, 3, 4, 5]])
     return v, f, False
@@ -342,6 +351,7 @@ def square_ring():
 NONCONVEX3D = {
     "square_ring": square_ring,
     "l_prism_split": l_prism_split,
+    "l_prism_tris": l_prism_tris,
     "l_prism_nonconvex": l_prism_nonconvex,
     "u_prism_split": u_prism_split,
     "dented_octahedron": dented_octahedron,
@@ -527,6 +537,14 @@ def gen_base(rng, cls, family=None, allow_scramble=False, allow_invalid_faces=Fa
             for f in faces:
                 if rng.chance(0.4):
                     f.reverse()
+            if rng.chance(0.4):
+                # ... and list one face out of cyclic sequence (a, c, b, d): sort_faces
+                # re-sequences the vertices of every face before it orients them
+                big = [f for f in faces if len(f) >= 4]
+                if big:
+                    f = rng.choice(big)
+                    k = rng.randrange(len(f) - 1)
+                    f[k], f[k + 1] = f[k + 1], f[k]
             scr = True
         else:
             scr = False
